@@ -144,6 +144,42 @@ class State:
         for g in conjuncts(f):
             self.hyps.append(g)
             self.run.note_bound(self, g)
+            self.propagate_equality(g)
+
+    def propagate_equality(self, g):
+        """an assumed `variable == constant` is substituted into the registers and memory, so that
+        lengths and indices that the path condition fixes become concrete"""
+        if not isinstance(g, tuple) or g[0] != "=":
+            return
+        a, b = g[1], g[2]
+        name = val = None
+        if isinstance(a, Poly) and isinstance(b, Poly):
+            d = a - b
+            ats = [(m, c) for m, c in d.t.items() if m != ()]
+            if len(ats) == 1 and len(ats[0][0]) == 1 and ats[0][1] in (1, -1):
+                name = ats[0][0][0]
+                val = -d.const_val() * ats[0][1]
+                rep = lambda v: v.subst({name: Poly.const(val)}) if isinstance(v, Poly) and name in v.atoms() else v
+        elif isinstance(a, tuple) and isinstance(b, tuple):
+            for x, y in ((a, b), (b, a)):
+                if x and x[0] == "bvvar" and y and y[0] == "bvconst":
+                    name, val = x, y
+
+                    def rep(v, x=x, y=y):
+                        if v == x:
+                            return y
+                        return v
+        if name is None:
+            return
+
+        def fix(v):
+            if isinstance(v, SliceV):
+                return SliceV(v.obj, v.path, rep(v.off), rep(v.len), rep(v.cap))
+            return rep(v)
+        for k in list(self.regs):
+            self.regs[k] = fix(self.regs[k])
+        for k in list(self.mem):
+            self.mem[k] = fix(self.mem[k])
 
 
 class FuncRun:
@@ -177,6 +213,11 @@ class FuncRun:
         self.param_vals = {}
         self.global_objs = {}
         self.pre_objs = set()
+        self.asm_body = None
+        self.lazy_vals = {}
+        self.gdecl = {}
+        self.gbounds = {}
+        self.ghyps = []
 
     # ------------------------------------------------------------ objects
     def new_obj(self, ty, name, origin, lazy=False):
@@ -273,12 +314,22 @@ class FuncRun:
         key = (oid, path)
         if key not in st.mem:
             info = self.objs[oid]
-            if info.lazy:
-                nm = "%s%s" % (info.name, "".join("[%s]" % p for p in path))
-                v = self.fresh_value(st, lt, nm)
+            if info.lazy and oid in self.pre_objs:
+                # cell of a slice parameter's backing store, first touched now: one variable per cell for the
+                # whole run (all paths), declared at run level, and it is also the cell's entry value
+                if key not in self.lazy_vals:
+                    nm = "%s%s" % (info.name, "".join("[%s]" % p for p in path))
+                    tmp = State(self)
+                    self.lazy_vals[key] = self.fresh_value(tmp, lt, nm)
+                    self.gdecl.update(tmp.decl)
+                    self.gbounds.update(tmp.bounds)
+                    self.ghyps.extend(tmp.hyps)
+                v = self.lazy_vals[key]
                 st.mem[key] = v
-                if self.old_mem is not None and oid in self.pre_objs and key not in self.old_mem:
+                if self.old_mem is not None and key not in self.old_mem:
                     self.old_mem[key] = v
+            elif info.lazy:
+                raise VerifError("read of unwritten cell %s%s of a fresh slice" % (oid, list(path)))
             else:
                 raise VerifError("read of unmapped cell %s %s" % (oid, path))
         return st.mem[key]
@@ -429,9 +480,11 @@ class FuncRun:
         self._add(st, name, kind, site, goal, descr)
 
     def _add(self, st, name, kind, site, goal, descr):
-        ob = Obligation(name, kind, tuple(st.hyps), goal, st.decl, st.bounds, site, descr, self.mode, self.fname, self.part_name)
+        ob = Obligation(name, kind, tuple(st.hyps) + tuple(self.ghyps), goal, st.decl, st.bounds, site, descr, self.mode, self.fname, self.part_name)
         ob.decl = dict(st.decl)
+        ob.decl.update(self.gdecl)
         ob.bounds = dict(st.bounds)
+        ob.bounds.update(self.gbounds)
         self.obligations.append(ob)
 
     def note_bound(self, st, g):
@@ -512,6 +565,15 @@ class FuncRun:
         self.entry_hyps = list(st.hyps)
         # vacuity cover of the precondition
         self.add_named(st, "cover", "cover.requires", "", "COVER", "precondition is satisfiable")
+        if self.asm_body is not None:
+            from .asm import AsmExec
+            try:
+                AsmExec(self, st, self.asm_body, self.fname).run_body()
+                self.at_return(st, [], {"pos": "fe_amd64.s"})
+            except PathEnd:
+                pass
+            self.paths += 1
+            return self.obligations
         work = [st]
         while work:
             s = work.pop()
@@ -736,7 +798,7 @@ class FuncRun:
                 return self.mk_int(int(v["v"]), ii[0])
             raise Unsupported("constant of type %s" % t)
         if k == "global":
-            return self.V.global_ptr(self, st, v["n"])
+            return self.V.global_ptr(self, st, v["n"], v.get("t"))
         if k == "func":
             return FuncV(v["n"])
         if k == "builtin":
@@ -898,6 +960,20 @@ class FuncRun:
             return
         if not ii:
             raise Unsupported("binop %s on %s" % (op, xt))
+        if op in ("/", "%"):
+            cx, cy = self.sconc(x, ii), self.sconc(y, ii)
+            if cx is not None and cy is not None:
+                if cy == 0:
+                    st.oblige("nopanic", site, False, "division by zero")
+                    raise PathEnd()
+                q = abs(cx) // abs(cy)
+                if (cx < 0) != (cy < 0):
+                    q = -q
+                r = cx - q * cy
+                st.regs[reg] = self.mk_int(q if op == "/" else r, ii[0])
+                return
+            if cy is not None and cy > 0 and not ii[1]:
+                pass
         if self.mode == "bv":
             yi = prog.int_info(ins["y"]["t"])
             st.regs[reg] = self.dom.binop(st, op, x, y, ii[0], ii[1], site)
@@ -965,6 +1041,14 @@ class FuncRun:
         st.oblige("bounds", site, inb, "array index in range [0,%d)" % n)
         st.assume(inb)
         st.regs[reg] = Ptr(x.obj, x.path + ((i, ii[0], ii[1]),))
+
+    def sconc(self, x, ii):
+        c = self.dom.concrete(x)
+        if c is None:
+            return None
+        if self.mode == "bv" and ii[1] and c >= (1 << (ii[0] - 1)):
+            c -= 1 << ii[0]
+        return c
 
     def widen(self, i, ii):
         if self.mode == "bv":
